@@ -97,6 +97,57 @@ def traversed_attrs(f: FuncInfo, recv: ClassInfo | None = None) -> set[str]:
     return out
 
 
+def traversal_shapes(f: FuncInfo, recv: ClassInfo | None = None) -> dict:
+    """attr -> shapes ('' direct, '[]' element, '[][k]' k-th component of a tuple element) on which nodes_() is invoked"""
+    selfname = f.params[0]
+    out: dict = {}
+
+    def attrs_of(e):
+        return [a for n in ast.walk(e) for a in [self_attr(n, selfname)] if isinstance(n, ast.Attribute) and a]
+    var: dict = {}      # loop variable -> set of (attr, shape)
+    for n in ast.walk(f.node):
+        it = tg = None
+        if isinstance(n, ast.For):
+            it, tg = n.iter, n.target
+        elif isinstance(n, ast.comprehension):
+            it, tg = n.iter, n.target
+        if it is None:
+            continue
+        srcs = attrs_of(it)
+        if isinstance(tg, ast.Name):
+            for a in srcs:
+                var.setdefault(tg.id, set()).add((a, "[]"))
+        elif isinstance(tg, ast.Tuple):
+            for k, x in enumerate(tg.elts):
+                if isinstance(x, ast.Name):
+                    for a in srcs:
+                        var.setdefault(x.id, set()).add((a, f"[][{k}]"))
+    for n in ast.walk(f.node):
+        if isinstance(n, ast.Call) and isinstance(n.func, ast.Attribute) and n.func.attr == "nodes_":
+            v = n.func.value
+            if isinstance(v, ast.Call) and isinstance(v.func, ast.Name) and v.func.id == "super":
+                r = recv or f.cls
+                parent = r.resolve_after(f.cls, "nodes_") if r is not None else None
+                if parent is not None and parent.cls.name != "Node":
+                    for a, shp in traversal_shapes(parent, r).items():
+                        out.setdefault(a, set()).update(shp)
+                continue
+            idx = ""
+            while isinstance(v, ast.Subscript):
+                idx = (f"[{v.slice.value}]" if isinstance(v.slice, ast.Constant) else "[]") + idx
+                v = v.value
+            a = self_attr(v, selfname) if isinstance(v, ast.Attribute) else None
+            if a:
+                out.setdefault(a, set()).add(idx)
+            elif isinstance(v, ast.Name) and v.id in var:
+                for a2, shp in var[v.id]:
+                    out.setdefault(a2, set()).add(shp + idx)
+            elif isinstance(v, ast.Attribute) and isinstance(v.value, ast.Name) and v.value.id in var:
+                for a2, shp in var[v.value.id]:
+                    out.setdefault(a2, set()).add(shp + "." + v.attr)
+    return out
+
+
 def is_noop(f: FuncInfo) -> bool:
     body = [s for s in f.node.body if not (isinstance(s, ast.Expr) and isinstance(s.value, ast.Constant))]
     return len(body) == 1 and isinstance(body[0], ast.Return) and isinstance(body[0].value, ast.Name) and body[0].value.id == f.params[0]
